@@ -17,8 +17,8 @@ CHECKS = {
          "Assumes std RandomState draws a fresh key per process and per HashSet/HashMap instance (true for the pinned toolchain). Process launches are capped by the sandbox's launch rate (about 100/s).",
          "DESIGN.md section 4, C13"),
  "C14": ("runtime monitor: panic capture and Err-nonempty checks around each library stage in isolated workers + process-boundary contract monitor of `gram check`",
-         "Held on every execution observed: all byte strings <=2 bytes, all token sequences <=4 (quick) / <=5 (thorough) tokens, random bytes incl. invalid UTF-8, token soups, every single-token mutant and truncation of the corpus, nesting families to depth 200; no stage panicked, no Err was empty, parse stayed under its logical work cap, and `gram check` kept its exit-status/stdout/stderr contract on the subset sent through the real binary.",
-         "Library stages are observed in the harness build of gram's sources (checked arithmetic); wall-clock timeouts and stack exhaustion at the process boundary are inconclusive, never violations.",
+         "Held on every execution observed: all byte strings <=2 bytes, all token sequences <=4 (quick) / <=5 (thorough) tokens, random bytes incl. invalid UTF-8, token soups, every single-token mutant and truncation of the corpus, nesting families to depth 200, generated programs and their perturbations with rendered diagnostics, every operator on every pair of 23 operands (machine-integer edges, 200-bit values) deciding a type; no stage panicked, no Err was empty, parse stayed under its logical work cap, and `gram check` kept its exit-status/stdout/stderr contract on the subset sent through the real binary.",
+         "Library stages are observed in the harness build of gram's sources (checked arithmetic); wall-clock timeouts and stack exhaustion at the process boundary are inconclusive, never violations; an in-process worker death while tokenizing or parsing, or during type checking of a program the reference accepts, is a violation.",
          "DESIGN.md section 4, C14"),
  "C17": ("runtime monitor: logical work counters (parse-function, definition-order-check and post-parse-pass invocations, hooks, with abort cap) and guest instruction counts under valgrind cachegrind, over parameterised input families",
          "Held on every execution observed: for 34 families x 3 forms x sizes 16..2048 (quick) / 4096 (thorough) the number of parse-function invocations and of definition-order checks stayed linear (local exponent <= 2.5, never above the quadratic cap), the same held for the invocations of the post-parse passes (error collection, re-association, resolution, definition traversal) and on 436 (quick) / 1332 (thorough) nested templates built from 36 one-hole contexts, and the instruction count of tokenize+parse measured under valgrind for sizes 64..512 (quick) / 2048 (thorough) grew with a local exponent of at most 1.4.",
@@ -45,7 +45,7 @@ CHECKS = {
          "Two independent expectations (R-core, generator). Syntactic rejections of a printed program are not this property's subject and are counted as inconclusive (0 observed).",
          "DESIGN.md section 4, C05"),
  "C06": ("runtime monitor: evaluator trace from the harness's step loop versus normalize_weak_head/unify; symmetry; agreement with reference normal forms",
-         "Held on every execution observed: unify(t,t); unify(t, t') in both directions where t' is t with subterms behind already solved holes (shift 0-3), and whnf(t') = the evaluated literal; unify(t, reduct) in both directions for the first 30 reducts; whnf of ground programs equals the evaluated literal; unify(a,b)=unify(b,a)=equality of R-core normal forms on pairs of same-typed hole-free terms.",
+         "Held on every execution observed: unify(t,t); unify(t, t') in both directions where t' is t with subterms behind already solved holes (shift 0-3), and whnf(t') = the evaluated literal; unify(t, reduct) in both directions for the first 30 reducts; whnf of ground programs equals the evaluated literal (generated programs and every operator on every pair of 23 operands incl. the machine-integer edges); unify(a,b)=unify(b,a)=equality of R-core normal forms on pairs of same-typed hole-free terms.",
          "Hole-free terms only; non-normalising pairs are skipped by construction or inconclusive on the watchdog.",
          "DESIGN.md section 4, C06"),
  "C07": ("runtime monitor: differential against an independent chart parser that reads grammar.y at run time (accept/reject, derivation count, left-associated tree)",
@@ -65,15 +65,15 @@ CHECKS = {
          "Only successes are judged. Base terms are generated without recursive definitions (unify legitimately diverges on them once a hole defeats the syntactic shortcut).",
          "DESIGN.md section 4, C12"),
  "C15": ("runtime monitor: specification listing (R-listing) differential, fault injection with spans known from the printer, range => re-parse round trip of every node",
-         "Held on every execution observed: listing() equals the specified excerpt on random (text, range) pairs; injected unbound names, re-bound binders and stray symbols are marked exactly; every node range of parsed programs re-parses in its scope to the same subterm, except the recorded finding about ranges that start or end inside the parentheses of a re-associated chain.",
-         "Characters are Unicode scalar values; type-fault spans are covered through the node-range check rather than per diagnostic.",
+         "Held on every execution observed: listing() equals the specified excerpt on random (text, range) pairs; injected unbound names, re-bound binders and stray symbols are marked exactly; every node range of parsed programs re-parses in its scope to the same subterm; for explicit programs with one planted fault every type diagnostic marks a subexpression whose evident type (literals, operators, type formers, lambdas, variables with ground annotations) agrees with what the message says about it, and every definition-order diagnostic shows the definition it names; all except the recorded finding about ranges that start or end inside the parentheses of a re-associated chain.",
+         "Characters are Unicode scalar values; which subexpression a type diagnostic should mark is judged through the message's own claim about its type, not through a table of expected sites.",
          "DESIGN.md section 4, C15"),
  "C16": ("runtime monitor: round trip parse -> Display -> parse with exact structural equality, exhaustive (parent, position, child) former matrix",
          "Held on every execution observed: every (parent former, operand position) x child former combination (41 x 38 x 3 fillers) and random well-scoped programs print to text that reads back to the same term, except the recorded finding (non-dependent implicit function type printed `{A} -> B`).",
          "Holes compared by position only; names of unused function-type parameters ignored.",
          "DESIGN.md section 4, C16"),
  "C18": ("runtime monitor: differential between type_check/normalize/unify under a peeled context and the closed program, with deep context snapshots before and after every call",
-         "Held on every execution observed: verdicts agree, types are convertible for R-core once the peeled parameters are instantiated, normalisation under the context preserves meaning, unify agrees with the closed wrappers, and both contexts are identical (length, offsets, Rc identity, structure) after accepted and rejected calls.",
+         "Held on every execution observed: verdicts agree, types are convertible for R-core once the peeled parameters are instantiated, normalisation under the context preserves meaning (also for the term with subterms behind already solved holes written up to 3 binders further out, context entries included), unify agrees with the closed wrappers, and both contexts are identical (length, offsets, Rc identity, structure) after accepted and rejected calls.",
          "Contexts are built from explicit (hole-free) programs.",
          "DESIGN.md section 4, C18"),
  "C19": ("runtime monitor: metamorphic relation between two runs of the full pipeline under meaning-preserving rewrites (no reference model)",
